@@ -378,7 +378,7 @@ def run(rep):
     else:
         stale = [show(v)[:80] for _c, v in pq.split_where(inl) if pq.mentions(v, lambda x: pq.call_named(x, "attr:_idxinlets") and x[2] == (('sym', 'self'),))]
         rep.check(not stale, "R06.c", "gis/grid.py", "delineate_area", "inlets handed to the kernel come from this call's argument (no inlet when none is given)",
-                  f"the kernel can receive the inlets stored by an earlier call: {stale[0] if stale else ''}", line=s.call.lineno)
+                  f"the kernel can receive the inlets stored by an earlier call: {stale[0] if stale else ''}", line=s.call.lineno, firm=True)
     okflt = _filters_nonneg(f, ast.unparse(s.args["idxcells_area"][0]) if "idxcells_area" in s.args else None)
     rep.check(okflt, "R06.b", "gis/grid.py", "delineate_area", "area = cells with a non-negative number (the -1 filling is dropped)", "", line=f.lineno)
     params = {a.arg for a in f.args.args}
